@@ -24,3 +24,10 @@ Theorem C20_replay : forall p q q' m,
   snd (sign (fst (sign p q)) q') = RReplay m.
 Proof. exact signer_replays_original. Qed.
 Print Assumptions C20_replay.
+
+(* Over every such sequence: a request for the message the signer signed last (same height, round,
+   step and content, any timestamp) is answered with the original signature — the one covering the
+   original timestamp — as long as no lost answer may have moved the state in between. *)
+Theorem C20_resign : forall ops, P_C20_resign ops (souts ops) = true.
+Proof. exact signer_resigns_original. Qed.
+Print Assumptions C20_resign.
